@@ -96,15 +96,22 @@ func main() {
 	cfgs := evmConfigs(run.Quick())
 	mpCfgs := []mpCfg{{Name: "A", Limits: false, BlockSize: 1, NTx: 4}, {Name: "B", Limits: true, BlockSize: 1, NTx: 4}}
 
+	// one application instance per worker slot, shared by both configurations
+	// (they have the same block_size, i.e. the same application configuration;
+	// they differ in the letters applied before a history)
+	pw := &evmPoolOfWorkers{ws: map[int]*evmWorker{}}
 	evmExecFor := func(cfg evmCfg) (func(int, *stateRec, []string, string, bool) *execResult, func()) {
-		pw := &evmPoolOfWorkers{ws: map[int]*evmWorker{}}
 		get := func(i int) *evmWorker {
 			pw.mu.Lock()
 			defer pw.mu.Unlock()
 			if w, ok := pw.ws[i]; ok {
+				if w.cfg.BlockSize != cfg.BlockSize {
+					core.Fatal("worker shared across different block sizes")
+				}
+				w.cfg = cfg
 				return w
 			}
-			w := newEvmWorker(cfg, evmWorkDir(run, cfg.Name, i))
+			w := newEvmWorker(cfg, evmWorkDir(run, "w", i))
 			pw.ws[i] = w
 			return w
 		}
@@ -139,10 +146,11 @@ func main() {
 				}
 				atomic.AddInt64(&literals, 1)
 				return runEvm(w, nil, full, 0, mode)
-			}, func() {
-			for _, w := range pw.ws {
-				w.c.Close()
-			}
+			}, func() {}
+	}
+	closeWorkers := func() {
+		for _, w := range pw.ws {
+			w.c.Close()
 		}
 	}
 
@@ -175,6 +183,7 @@ func main() {
 		for _, f := range res.Findings {
 			rep.report(k.Pool, k.Cfg, k.Mode, k.Hist, f)
 		}
+		closeWorkers()
 		os.RemoveAll(run.WorkDir())
 		run.Finish(nil, nil)
 	}
@@ -197,7 +206,7 @@ func main() {
 			continue
 		}
 		sys := sysDef{Pool: "gemmill-mempool", Cfg: c.Name, Alphabet: mpAlphabet(c), Depth: run.Pick(5, 7), Workers: 16, MergeObs: true, MergeAlts: 1,
-			Deadline: start.Add(time.Duration(float64(budget) * map[string]float64{"A": 0.12, "B": 0.2}[c.Name])),
+			Deadline: start.Add(time.Duration(float64(budget) * map[string]float64{"A": 0.15, "B": 0.25}[c.Name])),
 			Exec: func(i int, st *stateRec, suffix []string, mode string, _ bool) *execResult {
 				return runMp(mpw[i], c, append(append([]string{}, st.hist...), suffix...), mode)
 			}}
@@ -211,7 +220,7 @@ func main() {
 
 	// ---- ethTxPool ----
 	depths := map[string]int{"A": run.Pick(5, 7), "B": run.Pick(4, 5)}
-	share := map[string]float64{"A": 0.66, "B": 0.93}
+	share := map[string]float64{"A": 0.68, "B": 0.93}
 	for _, c := range cfgs {
 		if only != "" && only != "evm"+c.Name {
 			continue
@@ -266,6 +275,7 @@ func main() {
 		statOut[k] = map[string]interface{}{"states": s.States, "transitions": s.Transitions, "merges": s.Merges, "merge_checks": s.MergeChecks,
 			"drains": s.Drains, "executions": s.Executions, "new_states_per_depth": s.PerDepth, "max_depth_completed": s.DepthDone, "capped_by_time": s.Capped, "transitions_in_unfinished_level": s.PartialTransitions, "wall_s": int(s.Wall*10) / 10.0}
 	}
+	closeWorkers()
 	os.RemoveAll(run.WorkDir())
 	stopProfile()
 	cov := core.Coverage{
